@@ -37,11 +37,11 @@ def cplx(dt):
 
 
 def real_of(dt):
-    return {C128: R64, C64: R32}.get(dt, dt)
+    return np.dtype({C128: R64, C64: R32}.get(str(np.dtype(dt)), str(np.dtype(dt))))
 
 
 def complex_of(dt):
-    return {R64: C128, R32: C64}.get(dt, dt)
+    return np.dtype({R64: C128, R32: C64}.get(str(np.dtype(dt)), str(np.dtype(dt))))
 
 
 def _arr(v, dt):
@@ -61,9 +61,18 @@ def _t(x):
 # builders
 
 
+_DT_KEYS = ("dt", "idt", "odt", "hdt")
+
+
 def build(cfg):
-    """construct the scico operator of a configuration (imports scico lazily)"""
-    return BUILDERS[cfg["cls"]](cfg)
+    """construct the scico operator of a configuration (imports scico lazily).
+    dtype names are turned into numpy dtype objects (scico compares dtypes with `==`, and
+    `np.complex64 == "complex64"` is False)"""
+    c = dict(cfg)
+    for k in _DT_KEYS:
+        if isinstance(c.get(k), str):
+            c[k] = np.dtype(c[k])
+    return BUILDERS[c["cls"]](c)
 
 
 def b_generic(cfg):
